@@ -4,7 +4,8 @@ import Holpy.C10.Model
 Line protocol of the C10 model (one s-expression in, one out):
   (acnorm TREE)            -> TREE                       conj_norm / disj_norm on member ids
   (conv FUEL CE TERM)      -> (ok LHS RHS) | (err KIND)  conversion combinators
-  (natnorm ONE TERM)       -> NEXP                       data/nat.py norm_full (see Model.lean)
+  (natnorm ONE NEXP)       -> NEXP                       data/nat.py norm_full (see Model.lean)
+  (isnf ONE NEXP)          -> T | F                      the normal-form predicate of norm_idem
 TREE = n | (n L R);  TERM = (a n) | (c F A) | (l x BODY);  PAT = (v n) | (a n) | (c F A)
 CE   = all | no | (rewr L R) | (then A B) | (else A B) | (try A) | (comb A B) | (comb1 A) | (arg A)
      | (fun A) | (arg1 A) | (binop A) | (abs A) | (sub A) | (repeat A) | (bottom A) | (top A ...)
@@ -105,6 +106,10 @@ def handle (line : String) : String :=
       | .ok (l, r) => toString (Sexp.list [.atom "ok", termTo l, termTo r])
       | .error e => toString (Sexp.list [.atom "err", .atom (errTo e)])
     | _, _, _ => "bad-op"
+  | some (.list [.atom "isnf", one, t]) =>
+    match one.toNat?, nexpOf t with
+    | some o, some t => toString (Sexp.ofBool (isNF o t))
+    | _, _ => "bad-op"
   | some (.list [.atom "natnorm", one, t]) =>
     match one.toNat?, nexpOf t with
     | some o, some t => toString (nexpTo (norm o t))
